@@ -120,7 +120,7 @@ class ProjInitCtx(JobCtx):
 class ProjectInitRG(RGContract):
     """Project(path) raced by other processes opening the same project (workspace directory created concurrently)"""
     target = f"{PRJ}.Project.__init__"
-    properties = ("C05", "C12", "C20")
+    properties = ("C05", "C12", "C19", "C20")
     ctx_class = ProjInitCtx
     inline = GETTERS + (f"{CFG}._get_project_config_fn", f"{PRJ}.Project._check_schema_compatibility", f"{PRJ}.Project.config", "signac._utility._mkdir_p")
 
@@ -151,6 +151,12 @@ class ProjectInitRG(RGContract):
         join0 = ctx.externals[os.path.join]
 
         def join(interp_, *parts):
+            from .config import SCfgValue
+            if any(isinstance(x, SCfgValue) for x in parts):
+                # where a project keeps its jobs is not configurable: discovery (get_job, get_project from inside a job directory) and every
+                # other session look for <path>/workspace
+                ctx.ghost["path_from_configuration"] = repr(parts)
+                parts = tuple("workspace" if isinstance(x, SCfgValue) else x for x in parts)
             r = join0(interp_, *parts)
             try:
                 r.normalised = bool(getattr(parts[0], "normalised", False))      # spelled from the normalised path or from the raw argument
@@ -187,6 +193,8 @@ class ProjectInitRG(RGContract):
             ex.oblige(self.oname("rg:no_exception_escapes_when_another_process_creates_the_workspace_first"), False, note=repr(outcome[1]))
             return
         ex.oblige(self.oname("rg:workspace_exists_on_return"), ctx.fs.ws[pre["p"]])
+        ex.oblige(self.oname("ensures:the_workspace_is_<path>/workspace_whatever_the_configuration_holds"), z3.BoolVal("path_from_configuration" not in ctx.ghost),
+                  note=str(ctx.ghost.get("path_from_configuration")))
         f = pre["o"].fields
         ok = isinstance(f.get("_workspace"), LWs) and isinstance(f.get("_path"), LProj)
         ex.oblige(self.oname("ensures:handle_bound_to_the_project_directory_and_its_workspace"), z3.BoolVal(ok))
